@@ -102,6 +102,7 @@ func chainCmd(args []string, engine string) {
 	dir := fs.String("dir", "", "output directory")
 	props := fs.String("props", "", "comma separated property ids whose monitors run (empty: all)")
 	twin := fs.Bool("twin", false, "run every history twice on fresh applications and compare (C07)")
+	isolate := fs.Bool("isolate", false, "re-run every history once per tenant without the other tenants' messages and compare the tenant's view (C13)")
 	fs.Parse(args)
 	p, ok := gen.Profiles[*profile]
 	if !ok && engine != "ante" {
@@ -151,6 +152,9 @@ func chainCmd(args []string, engine string) {
 		hs := hex.EncodeToString(h[:8])
 		st.Histories++
 		vs := monitor.Run(tr, *props, st.Branches)
+		if *isolate {
+			vs = append(vs, isolationCheck(ops, tr, engine, st.Branches)...)
+		}
 		for k := range vs {
 			vs[k].History = base + ".ops"
 		}
@@ -201,6 +205,9 @@ func replayCmd(args []string) {
 		fmt.Println(strings.Join(lines, "\n"))
 	}
 	vs := monitor.Run(tr, *props, map[string]int{})
+	if strings.Contains(*props, "C13") {
+		vs = append(vs, isolationCheck(ops, tr, *engine, map[string]int{})...)
+	}
 	for _, v := range vs {
 		fmt.Printf("MONITOR-FAIL property=%s key=%s step=%d %s\n", v.Property, v.Key, v.Step, v.What)
 	}
